@@ -10,10 +10,48 @@ fn byte() -> u8 {
     let x = S.fetch_add(0x9E3779B97F4A7C15, Ordering::Relaxed);
     (x >> 29) as u8
 }
+/// The first 32 bytes are written without a loop so that callers' small keys/ids need no unwind budget under CBMC.
+fn fill_slice(dst: &mut [u8]) {
+    let n = dst.len();
+    if n > 0 { dst[0] = byte(); }
+    if n > 1 { dst[1] = byte(); }
+    if n > 2 { dst[2] = byte(); }
+    if n > 3 { dst[3] = byte(); }
+    if n > 4 { dst[4] = byte(); }
+    if n > 5 { dst[5] = byte(); }
+    if n > 6 { dst[6] = byte(); }
+    if n > 7 { dst[7] = byte(); }
+    if n > 8 { dst[8] = byte(); }
+    if n > 9 { dst[9] = byte(); }
+    if n > 10 { dst[10] = byte(); }
+    if n > 11 { dst[11] = byte(); }
+    if n > 12 { dst[12] = byte(); }
+    if n > 13 { dst[13] = byte(); }
+    if n > 14 { dst[14] = byte(); }
+    if n > 15 { dst[15] = byte(); }
+    if n > 16 { dst[16] = byte(); }
+    if n > 17 { dst[17] = byte(); }
+    if n > 18 { dst[18] = byte(); }
+    if n > 19 { dst[19] = byte(); }
+    if n > 20 { dst[20] = byte(); }
+    if n > 21 { dst[21] = byte(); }
+    if n > 22 { dst[22] = byte(); }
+    if n > 23 { dst[23] = byte(); }
+    if n > 24 { dst[24] = byte(); }
+    if n > 25 { dst[25] = byte(); }
+    if n > 26 { dst[26] = byte(); }
+    if n > 27 { dst[27] = byte(); }
+    if n > 28 { dst[28] = byte(); }
+    if n > 29 { dst[29] = byte(); }
+    if n > 30 { dst[30] = byte(); }
+    if n > 31 { dst[31] = byte(); }
+    let mut i = 32;
+    while i < n { dst[i] = byte(); i += 1; }
+}
 pub struct ThreadRng;
 pub fn rng() -> ThreadRng { ThreadRng }
 pub trait Rng {
-    fn fill_bytes(&mut self, dst: &mut [u8]) { for b in dst.iter_mut() { *b = byte(); } }
+    fn fill_bytes(&mut self, dst: &mut [u8]) { fill_slice(dst) }
     fn next_u32(&mut self) -> u32 { u32::from_le_bytes([byte(), byte(), byte(), byte()]) }
     fn next_u64(&mut self) -> u64 { ((self.next_u32() as u64) << 32) | self.next_u32() as u64 }
 }
@@ -27,7 +65,7 @@ impl Random for bool { fn draw() -> Self { byte() & 1 == 1 } }
 pub trait RngExt: Rng { fn random<T: Random>(&mut self) -> T { T::draw() } }
 impl<R: Rng> RngExt for R {}
 pub trait Fill { fn fill_from(&mut self); }
-impl Fill for [u8] { fn fill_from(&mut self) { for b in self.iter_mut() { *b = byte(); } } }
-impl<const N: usize> Fill for [u8; N] { fn fill_from(&mut self) { for b in self.iter_mut() { *b = byte(); } } }
+impl Fill for [u8] { fn fill_from(&mut self) { fill_slice(self) } }
+impl<const N: usize> Fill for [u8; N] { fn fill_from(&mut self) { fill_slice(self) } }
 pub fn fill<T: Fill + ?Sized>(d: &mut T) { d.fill_from() }
 pub fn random<T: Random>() -> T { T::draw() }
